@@ -8,9 +8,11 @@ PROP = 'C19'
 LEVEL = 'exploration'
 RULE = ('random walks over the global param time (forward/backward/repeated jumps, int and Fraction times) on 2-4 '
         'instances whose Dynamic/Number parameters hold numbergen generators (UniformRandom, NormalRandom, Choice, '
-        'UniformRandomInt, ScaledTime and +,*,abs compositions; equal and different names/seeds, set at class and '
+        'UniformRandomInt, ScaledTime and +,*,abs compositions, TimeSampledFn with period/offset, generators that raise at some '
+        'times (1/ScaledTime, a plain callable); equal and different names/seeds, set at class and '
         'instance level), interleaved with reads, inspect_value, force_new_dynamic_value, nested and raising time '
-        'contexts and _state_push/_state_pop; every read is compared with a table (spec, time) -> first value seen. '
+        'contexts and _state_push/_state_pop; every read is compared with a table (spec, time) -> first value seen (or "raises"), '
+        'must leave the time where it was, and a sampled generator is cross-checked with its inner generator''s entry. '
         'non-trivial = a time is revisited after another time was visited and the walk contains an inspection, '
         'context or push/pop; distinct by the sequence of op kinds')
 PARAMS = {
@@ -22,7 +24,8 @@ ASSUMPTIONS = [
     'param.random_seed is left at its default; times are ints or Fractions (floats are cast with a warning)',
     'the global Dynamic.time_fn Time instance is used (each shard is its own process; state restored per case)',
 ]
-REQUIRED = {'reads': 3000, 'revisit_reads': 500, 'inspections': 300, 'contexts': 100, 'pushpops': 100}
+REQUIRED = {'reads': 3000, 'revisit_reads': 500, 'inspections': 300, 'contexts': 100, 'pushpops': 100, 'reads_raised': 20,
+            'sampled_reads': 100, 'sampled_cross_checks': 20}
 
 _st = {}
 
@@ -41,8 +44,27 @@ class Boom(Exception):
     pass
 
 
+class FailAt:
+    """A plain callable generator: a pure function of the global time that has no value at some times."""
+
+    def __init__(self, k, scale):
+        self.k, self.scale = k, scale
+
+    def __call__(self):
+        t = _st['param'].Dynamic.time_fn()
+        if t % self.k == 0:
+            raise Boom(f'no value at time {t}')
+        return float(t) * self.scale + 1.0
+
+
 def make_gen(ng, spec):
     kind = spec[0]
+    if kind == 'failat':
+        return FailAt(spec[1], spec[2])
+    if kind == 'inv':
+        return 1.0 / ng.ScaledTime(factor=spec[1])
+    if kind == 'sampled':
+        return ng.TimeSampledFn(period=spec[1], offset=spec[2], fn=make_gen(ng, spec[3]))
     if kind == 'uniform':
         return ng.UniformRandom(name=spec[1], seed=spec[2], lbound=spec[3], ubound=spec[3] + spec[4], time_dependent=True)
     if kind == 'normal':
@@ -62,10 +84,26 @@ def make_gen(ng, spec):
     raise ValueError(kind)
 
 
-def gen_spec(rng, depth=0):
+def gen_spec(rng, depth=0, frac=False):
     c = rng.random()
     name = rng.choice(['ga', 'gb', 'gc'])
     seed = rng.choice([None, 1, 2, 42])
+    if depth == 0 and c < 0.1:
+        # generators without a value at some times (the read raises there)
+        if rng.random() < 0.5:
+            return ('failat', rng.choice([2, 3, 5]), rng.choice([1.0, -2.0]))
+        return ('inv', rng.choice([1.0, 2.5]))
+    if depth == 0 and c < 0.2:
+        F = fractions.Fraction
+        # (the library requires 0 <= offset < period and a time-dependent inner generator)
+        period = rng.choice([F(2), F(3, 2), F(5)]) if frac else rng.choice([2, 3, 5])
+        offset = rng.choice([F(0), F(1), F(1, 2), F(4, 3)]) if frac else rng.choice([0, 1, 1, 2])
+        if offset >= period:
+            offset = type(offset)(1)
+        inner = gen_spec(rng, 2)
+        while inner[0] not in ('uniform', 'normal', 'choice', 'randint', 'scaled'):
+            inner = gen_spec(rng, 2)
+        return ('sampled', period, offset, inner)
     if depth < 2 and c < 0.2:
         k = rng.choice(['add', 'mulc', 'abs'])
         if k == 'add':
@@ -101,7 +139,9 @@ def run_case(idx, rng, P, rep):
 
 
 def _run(idx, rng, P, rep, param, ng, T, use_frac):
-    specs = [gen_spec(rng) for _ in range(rng.randint(1, 3))]
+    specs = [gen_spec(rng, frac=use_frac) for _ in range(rng.randint(1, 3))]
+    # the inner generator of a sampled one is usually also used on its own (cross-check of the sampling arithmetic)
+    specs += [sp[3] for sp in specs if sp[0] == 'sampled' and rng.random() < 0.7]
     class_spec = rng.choice(specs) if rng.random() < 0.5 else None
     ns = dict(x=param.Number(default=make_gen(ng, class_spec) if class_spec else 0.0),
               y=param.Dynamic(default=None), z=param.Number(default=1.0, bounds=(None, None)))
@@ -151,13 +191,30 @@ def _run(idx, rng, P, rep, param, ng, T, use_frac):
         i, pn = slot
         o = insts[i]
         t = now()
-        if how == 'force':
-            v = o.param.force_new_dynamic_value(pn)
-        else:
-            v = getattr(o, pn)
-        key = (slot_spec[slot], t)
+        raw_t = T()
+        try:
+            if how == 'force':
+                v = o.param.force_new_dynamic_value(pn)
+            else:
+                v = getattr(o, pn)
+        except (Boom, ZeroDivisionError) as e:
+            v = ('raises', type(e).__name__)
+            rep.count('reads_raised')
+        sp = slot_spec[slot]
+        key = (sp, t)
         trace.append((how, f'{i}.{pn}', str(t), v))
         rep.count('reads')
+        if T() != raw_t or type(T()) is not type(raw_t):
+            viol('read-moved-time', f'{how} of inst{i}.{pn} spec={sp!r} at time {raw_t!r} left the time at {T()!r}')
+            T(raw_t)
+        if sp[0] == 'sampled':
+            rep.count('sampled_reads')
+            # a sampled generator shows its inner generator's value at the start of the sampling period
+            t_in = (t + sp[2]) - ((t + sp[2]) % sp[1]) - sp[2]
+            if (sp[3], t_in) in table:
+                rep.count('sampled_cross_checks')
+                if table[(sp[3], t_in)] != v:
+                    viol('sampled-value-differs-from-inner', f'{sp!r} at time {t} gave {v!r}; its inner generator at time {t_in} gave {table[(sp[3], t_in)]!r}')
         if key in table:
             if len(set(visited)) > 1:
                 rep.count('revisit_reads')
@@ -166,7 +223,8 @@ def _run(idx, rng, P, rep, param, ng, T, use_frac):
                      f'{how} of inst{i}.{pn} spec={slot_spec[slot]!r} at time {t}: got {v!r}, first seen {table[key]!r}')
         else:
             table[key] = v
-        last_read[slot] = v
+        if not (isinstance(v, tuple) and v and v[0] == 'raises'):
+            last_read[slot] = v
         visited.append(t)
 
     def ops(depth, budget):
